@@ -448,7 +448,7 @@ namespace xsimd
     rotl(T0 x, T1 shift) noexcept
     {
         constexpr auto N = std::numeric_limits<T0>::digits;
-        return (x << shift) | (x >> (N - shift));
+        return shift ? (x << shift) | (x >> (N - shift)) : x; // a zero count must not shift by the full width
     }
 
     template <class T0, class T1>
@@ -456,7 +456,7 @@ namespace xsimd
     rotr(T0 x, T1 shift) noexcept
     {
         constexpr auto N = std::numeric_limits<T0>::digits;
-        return (x >> shift) | (x << (N - shift));
+        return shift ? (x >> shift) | (x << (N - shift)) : x; // a zero count must not shift by the full width
     }
 
     template <class T>
